@@ -344,7 +344,7 @@ main(int argc, char** argv)
     int fifo_keep = -1;
     if (!strcmp(tok[1], "fifo")) fifo_keep = __real_open(src, O_RDWR | O_NONBLOCK);
     const int fds_mid = count_fds();
-    errno = 0;
+    errno = V_ENTRY_ERRNO;
     if (!strcmp(tok[1], "fifo0")) alarm(10);   // an open() that waits for a writer never returns: stopped by the watchdog
     scripting = 1;
     const ZixStatus st = zix_copy_file(&cb_alloc, from, to, overwrite ? ZIX_COPY_OPTION_OVERWRITE_EXISTING : ZIX_COPY_OPTION_NONE);
